@@ -207,6 +207,32 @@ def main(tier: str) -> int:
             chk.fail("categorical_crossentropy3d is not the row-wise application", {"target": T.tolist()}, {"fn": "cce3d"})
     chk.distribution["cce_max_gap_to_textbook"] = gap_max
 
+    # ---- the TRANSLATED accuracy_score (TFV/Generated/Src/Metrics_accuracy_score.lean, read through TFV.Model.Np) evaluated by Lean
+    #      against the real function on the same label vectors
+    import subprocess
+    acases = []
+    for _ in range(30 if tier == "quick" else 200):
+        n_ = rng.randint(1, 9)
+        acases.append(([rng.randint(0, 3) for _ in range(n_)], [rng.randint(0, 3) for _ in range(n_)]))
+    alines = ["import TFV.Generated.Src.Metrics_accuracy_score", "open TFV TFV.Generated.Src",
+              "def showR : Option Rat → String | none => \"none\" | some q => toString q.num ++ \"/\" ++ toString q.den"]
+    for a_, b_ in acases:
+        alines.append("#eval IO.println (showR (Metrics_accuracy_score %s %s))" % (a_, b_))
+    aaudit = C.LEAN / "TFV" / "Audit" / "C19_np.lean"
+    aaudit.parent.mkdir(parents=True, exist_ok=True)
+    aaudit.write_text("\n".join(alines) + "\n")
+    with C.LeanLock():
+        apr = subprocess.run(["lake", "env", "lean", str(aaudit.relative_to(C.LEAN))], cwd=C.LEAN, capture_output=True, text=True, timeout=900)
+    agot = [l.strip() for l in apr.stdout.splitlines() if l.strip()]
+    chk.obligation("the translated accuracy_score evaluates (lake env lean TFV/Audit/C19_np.lean)", apr.returncode == 0 and len(agot) == len(acases), (apr.stdout + apr.stderr)[-600:])
+    if apr.returncode == 0 and len(agot) == len(acases):
+        for (a_, b_), g in zip(acases, agot):
+            real = float(M.accuracy_score(np.array(a_, dtype=np.int64), np.array(b_, dtype=np.int64)))
+            val = None if g == "none" else int(g.split("/")[0]) / int(g.split("/")[1])
+            chk.count("np_kernel_accuracy")
+            (chk.agree("np_kernel:accuracy") if val is not None and C.close(real, val, 1e-12, 1e-12) else
+             chk.disagree("np_kernel:accuracy", {"input": {"y_true": a_, "y_predict": b_}, "impl": real, "model": g}))
+
     try:
         outs = C.lean_driver([json.dumps(o) for o in ops])
     except Exception as e:
